@@ -8,7 +8,7 @@ from typing import Dict, List, Set
 from .. import poly
 from ..absint import BoolV, DictV, NoneV, Num, Obj, Opaque, SeqV, State, mk_cmp, show_cond
 from ..analysis_scope import IDX, RAW, AnalysisInterp, analyse_function, analysis_universe
-from ..core import Result, finding, norm_construct, register
+from ..core import Finding, Result, finding, norm_construct, register
 from ..heap import HeapInterp
 from ..model import AnalysisError, FuncInfo
 from ..poly import A, C, Frac, ONE, ZERO, mk_fn, mk_ite, mk_rd, mk_red, mk_sum
@@ -179,6 +179,20 @@ def check_movement(res: Result, repo):
             res.ok(rule, {"function": name, "predicate": f"open {op} close"}, nontrivial=name)
         else:
             res.fail(rule, finding("C17", rule, fa.fi, fa.fi.node, f"{name} must be open {op} close of the addressed candle; found {sorted(vals)}", construct=f"{name}: predicate"))
+
+
+def check_movement_contracts(prop: str, res: Result, repo):
+    """the part of the movement predicates that indicator formulas rely on (Donchian/HL: highest/lowest windows and
+    reductions; Aroon: highestbar/lowestbar scan from offset 0 with strict improvement = most recent extreme on ties)"""
+    tmp = Result(prop, res.tier)
+    check_movement(tmp, repo)
+    keep = ("highest", "lowest", "highestbar", "lowestbar", "_get_clean_readings")
+    for f in tmp.findings:
+        if any(f.function == k or f.construct.startswith(k + ":") for k in keep):
+            res.fail("R-CONTRACT", Finding(prop, "R-CONTRACT", f.module, f.function, f.construct, f.message, f.line))
+    n = sum(1 for s_ in tmp.samples)
+    if not any(any(f.function == k or f.construct.startswith(k + ":") for k in keep) for f in tmp.findings):
+        res.ok("R-CONTRACT", {"helpers": list(keep), "why": "windows, reductions, clean-window filter and tie rule equal the contracts the formulas are compared under"}, nontrivial="movement-contracts")
 
 
 def _atoms_of(v):
